@@ -218,6 +218,7 @@ class Stats(object):
         self.transitions = 0
         self.fps = set()
         self.loghashes = set()
+        self.seqhashes = set()
         self.outcomes = set()
         self.ends = {}
         self.viol = {}           # sig -> dict(cost, choices, rule, facts, detail, harness, pi)
@@ -235,6 +236,7 @@ class Stats(object):
         self.transitions += o.transitions
         self.fps |= o.fps
         self.loghashes |= o.loghashes
+        self.seqhashes |= o.seqhashes
         self.outcomes |= o.outcomes
         for k, v in o.ends.items():
             self.ends[k] = self.ends.get(k, 0) + v
@@ -279,6 +281,9 @@ def explore(h, pi, stack, bound, budget, order="rr", jump=False, rerun_stride=50
         lh = x.loghash()
         if x.nthreads_logged >= 2:
             st.loghashes.add(lh)
+        else:
+            # single-threaded input / history enumeration: distinct (log, observation) pairs
+            st.seqhashes.add(hash((lh, repr(sorted(x.obs.items(), key=lambda kv: kv[0])))))
         st.outcomes.add(hash((x.end, repr(sorted(x.obs.items(), key=lambda kv: kv[0])))))
         st.lock_edges |= x.lock_edges
         tr = x.trace
